@@ -21,13 +21,18 @@ type segResult struct {
 
 // openOthers opens n unrelated fresh databases (and writes one key to each) before the database
 // under test is opened; they stay open for the rest of the segment.
-func openOthers(n int, base string) (closers []func()) {
+// shareRoot, when not empty, is a storage root of the database under test that the other databases use as
+// their root too (their metadata lives elsewhere): two databases may keep their contents under one root.
+func openOthers(n int, base string, shareRoot ...string) (closers []func()) {
 	for i := 0; i < n; i++ {
 		oc := Case{Prof: "other", Keys: []string{"o"}, Roots: 1, MaxDir: 100}
 		ow := newWorldStruct(oc, &ev.Result{})
 		ow.Dir = filepath.Join(base, fmt.Sprintf("other-%d-%d", os.Getpid(), dirCounter.Add(1)))
 		os.MkdirAll(ow.Dir, 0o755)
 		ow.setCfg()
+		if len(shareRoot) > 0 && shareRoot[0] != "" {
+			ow.Cfg.Storage.RootDirs = []string{shareRoot[0]}
+		}
 		if err := ow.open(); err != nil {
 			panic("harness: cannot open an unrelated database: " + err.Error())
 		}
@@ -48,7 +53,11 @@ func runSegment(c Case, dir string, from, to int) segResult {
 		w.ApplyDry(i, c.Ops[i])
 	}
 	w.M.Reopen() // a new process: nothing of the old one's transactions survives
-	closers := openOthers(c.Others, filepath.Dir(dir))
+	share := ""
+	if c.ShareRoot {
+		share = w.Cfg.Storage.RootDirs[0]
+	}
+	closers := openOthers(c.Others, filepath.Dir(dir), share)
 	defer func() {
 		for _, f := range closers {
 			f()
@@ -115,16 +124,20 @@ func ExecC05(c Case) *ev.Result {
 		base := filepath.Join(dbRoot(), fmt.Sprintf("c05-%d-%d", os.Getpid(), dirCounter.Add(1)))
 		os.MkdirAll(base, 0o755)
 		defer os.RemoveAll(base)
-		closers := openOthers(c.Others, base)
+		w := newWorldStruct(c, r)
+		w.Dir = filepath.Join(base, "db0")
+		os.MkdirAll(w.Dir, 0o755)
+		w.setCfg()
+		share := ""
+		if c.ShareRoot {
+			share = w.Cfg.Storage.RootDirs[0]
+		}
+		closers := openOthers(c.Others, base, share)
 		defer func() {
 			for _, f := range closers {
 				f()
 			}
 		}()
-		w := newWorldStruct(c, r)
-		w.Dir = filepath.Join(base, "db0")
-		os.MkdirAll(w.Dir, 0o755)
-		w.setCfg()
 		if err := w.open(); err != nil {
 			r.Failf("opening a fresh database failed: %v", err)
 			return r
